@@ -1,0 +1,21 @@
+//go:build verif
+
+package formatter
+
+import "golang.org/x/net/html"
+
+// Verification hooks (build tag verif): the formatter's leaf functions, for the model correspondence.
+
+// VerifRenderOpenTag is renderOpenTag for an element with the given attributes.
+func VerifRenderOpenTag(tag string, attrs []html.Attribute) string {
+	return NewFormatter().renderOpenTag(&html.Node{Type: html.ElementNode, Data: tag, Attr: attrs})
+}
+
+// VerifEscapeText is escapeText.
+func VerifEscapeText(s string) string { return escapeText(s) }
+
+// VerifNormalizeInlineText is normalizeInlineText.
+func VerifNormalizeInlineText(s string) string { return normalizeInlineText(s) }
+
+// VerifSplitFrontmatter is splitFrontmatter.
+func VerifSplitFrontmatter(s string) (string, string) { return NewFormatter().splitFrontmatter(s) }
